@@ -93,3 +93,97 @@ func BuildCtrlDriver(reg modeling.Registrar, name string, portBuf int) *CtrlDriv
 	d.AssignPort("Ctrl", p)
 	return d
 }
+
+// ScriptSpec configures the scripted control component.
+type ScriptSpec struct {
+	Freq   timing.Freq `json:"freq"`
+	At     uint64      `json:"at"` // simulated time (ps) at which the script starts
+	Target string      `json:"target"`
+	Addrs  []uint64    `json:"addrs"`
+}
+
+// ScriptState is fully serialisable: a checkpoint taken in the middle of the script resumes it.
+type ScriptState struct {
+	Step    int  `json:"step"` // 0 waiting for At, 1..3 Drain/Flush/Enable, 4 done
+	Waiting bool `json:"waiting"`
+	Acked   int  `json:"acked"`
+	Failed  int  `json:"failed"`
+}
+
+// ScriptCtrl halts the drivers at a fixed time, drains + flushes (with an address filter) + enables one cache, and
+// lets the drivers resume.
+type ScriptCtrl struct {
+	*modeling.Component[ScriptSpec, ScriptState, modeling.None]
+	drivers []*Driver
+}
+
+type scriptMW struct{ c *ScriptCtrl }
+
+func (m *scriptMW) Tick() bool {
+	c := m.c
+	st := &c.State
+	sp := c.Spec()
+	p := c.GetPortByName("Ctrl")
+	progress := false
+	for {
+		msg := p.RetrieveIncoming()
+		if msg == nil {
+			break
+		}
+		if r, ok := msg.(memcontrolprotocol.Rsp); ok {
+			st.Acked++
+			if !r.Success {
+				st.Failed++
+			}
+			st.Waiting = false
+			st.Step++
+		}
+		progress = true
+	}
+	switch {
+	case st.Step == 0:
+		if uint64(c.CurrentTime()) >= sp.At {
+			for _, d := range c.drivers {
+				d.State.Halt = true
+			}
+			st.Step = 1
+		}
+		return true // keep ticking until the script starts
+	case st.Step >= 1 && st.Step <= 3:
+		if !st.Waiting && p.CanSend() {
+			cmd := []memcontrolprotocol.Command{memcontrolprotocol.CmdDrain, memcontrolprotocol.CmdFlush, memcontrolprotocol.CmdEnable}[st.Step-1]
+			req := memcontrolprotocol.Req{Command: cmd}
+			if cmd == memcontrolprotocol.CmdFlush {
+				req.Addresses = sp.Addrs
+			}
+			req.ID = timing.GetIDGenerator().Generate()
+			req.Src, req.Dst = p.AsRemote(), messaging.RemotePort(sp.Target)
+			req.TrafficBytes, req.TrafficClass = 8, "memcontrolprotocol.Req"
+			p.Send(req)
+			st.Waiting = true
+			progress = true
+		}
+	case st.Step == 4:
+		for _, d := range c.drivers {
+			d.State.Halt = false
+			d.TickLater()
+		}
+		st.Step = 5
+		progress = true
+	}
+	return progress
+}
+
+// BuildScriptCtrl builds the scripted control component with a port "Ctrl".
+func BuildScriptCtrl(reg modeling.Registrar, name string, spec ScriptSpec, drivers []*Driver, portBuf int) *ScriptCtrl {
+	c := modeling.NewBuilder[ScriptSpec, ScriptState, modeling.None]().
+		WithEngine(reg.GetEngine()).WithFreq(spec.Freq).WithSpec(spec).Build(name)
+	c.DeclarePort("Ctrl")
+	sc := &ScriptCtrl{Component: c, drivers: drivers}
+	c.AddMiddleware(&scriptMW{c: sc})
+	reg.RegisterComponent(sc)
+	p := modeling.MakePortBuilder().WithRegistrar(reg).WithComponent(sc).
+		WithSpec(modeling.PortSpec{BufSize: portBuf}).Build("Ctrl")
+	sc.AssignPort("Ctrl", p)
+	return sc
+}
